@@ -63,9 +63,32 @@ MSG_RT = [
     H(MSGS, 'hb_rt_ping', 'msgs', 'rt_ping', ['u16', 'u16'], 'Ping survives encode -> decode', ['Ping::write', 'Ping::read_from_fixed_length_buffer'], bounded='payload length <= 3 bytes', thorough=True),
 ]
 
+ONION_H = [
+    H(ONION, 'h_shift_right', 'onion_utils', 'shift_right', ['[u8;80]', '[u8;840]', 'u8', 'u8', 'u8', 'u8'],
+      'AttributionData::shift_right moves hold time i to i+1 and every HMAC to its BOLT position one hop further (checked at a symbolic position = all positions)', ['AttributionData::shift_right']),
+    H(ONION, 'h_shift_left_inverse', 'onion_utils', 'shift_left_inverse', ['[u8;80]', '[u8;840]', 'u8', 'u8', 'u8', 'u8'],
+      'shift_left undoes shift_right on every hold time and HMAC that survives', ['AttributionData::shift_left', 'AttributionData::shift_right']),
+]
+INB_H = [
+    H(INB, 'h_info_bytes', 'inbound_payment', 'info_bytes', ['u8', 'bool', 'u64', 'u32', 'u64', 'bool', 'u16'],
+      'construct_info_bytes == Ok(b) ==> decoding b with the masks verify() uses yields (method, min.unwrap_or(0), now+delta+7200, cltv); Err <=> min > MAX_VALUE_MSAT or the expiry does not fit 48 bits',
+      ['inbound_payment::construct_info_bytes', 'inbound_payment::calculate_absolute_expiry', 'inbound_payment::min_final_cltv_expiry_delta_from_info', 'inbound_payment::Method::from_bits']),
+]
+INV_H = [
+    H(INV_DE, 'h_int_roundtrip', 'invoice_de', 'int_roundtrip', ['u64'], 'parse_u64_be(encode_int_be_base32(x)) == Some(x) with exactly encoded_int_be_base32_size(x) digits and no leading zero digit, for every u64',
+      ['ser::encode_int_be_base32', 'ser::encoded_int_be_base32_size', 'de::parse_u64_be']),
+    H(INV_DE, 'h_u16_parse', 'invoice_de', 'u16_parse', ['u8', 'u8', 'u8'], 'three base-32 digits always parse as the big-endian u16 they denote', ['de::parse_u16_be']),
+    H(INV_LIB, 'h_amount_roundtrip', 'invoice_lib', 'amount_roundtrip', ['u64'],
+      'InvoiceBuilder::amount_milli_satoshis(a) then RawBolt11Invoice::amount_pico_btc() == a*10 with the largest SI prefix that divides; overflowing amounts are refused',
+      ['InvoiceBuilder::amount_milli_satoshis', 'RawBolt11Invoice::amount_pico_btc', 'SiPrefix::multiplier', 'SiPrefix::values_desc']),
+]
+
 GROUPS = {
     'C12': [{'name': 'ser-primitives', 'crate': 'lightning', 'harnesses': SER_PRIMS, 'timeout': 400}],
     'C13': [{'name': 'ser-canonical+wire', 'crate': 'lightning', 'harnesses': SER_CANON + MSG_RT, 'timeout': 400}],
+    'C14': [{'name': 'attribution-shift', 'crate': 'lightning', 'harnesses': ONION_H, 'timeout': 600}],
+    'C04': [{'name': 'payment-metadata', 'crate': 'lightning', 'harnesses': INB_H, 'timeout': 300}],
+    'C18': [{'name': 'invoice-numeric-fields', 'crate': 'lightning-invoice', 'harnesses': INV_H, 'timeout': 600}],
 }
 
 SIZES = {'u8': 1, 'u16': 2, 'u32': 4, 'u64': 8, 'i64': 8, 'bool': 1, 'u128': 16, 'usize': 8}
@@ -183,9 +206,31 @@ def run_groups(prop, groups, tier):
                 if fn.endswith(hid) or hid.endswith(fn):
                     failed_ids.add(hid)
         per = (total_checks // max(1, len(checks))) if checks else 0
+        # per-thread mapping: "Thread N: Checking harness X..." then "Thread N:" + result block
+        thread_h = {}
+        per_h = {}
+        cur = None
+        for line in out.split('\n'):
+            m1 = re.match(r'Thread (\d+): Checking harness (\S+?)\.\.\.', line)
+            if m1:
+                thread_h[m1.group(1)] = m1.group(2)
+                continue
+            m2 = re.match(r'Thread (\d+):\s*$', line)
+            if m2:
+                cur = thread_h.get(m2.group(1))
+                continue
+            m3 = re.search(r'\*\* (\d+) of (\d+) failed', line)
+            if m3 and cur:
+                per_h.setdefault(cur, {})['checks'] = int(m3.group(2))
+                per_h[cur]['failed'] = int(m3.group(1))
+            m4 = re.search(r'Verification Time: ([0-9.]+)s', line)
+            if m4 and cur:
+                per_h.setdefault(cur, {})['time'] = float(m4.group(1))
         for h in hs:
+            info = next((v for k, v in per_h.items() if k.endswith(h['id'])), {})
             ent = {'name': h['short'], 'functions': h['functions'], 'clause': h['clause'], 'bounded': bool(h['bounded']), 'bound': h['bounded'],
-                   'status': 'failed' if h['id'] in failed_ids else 'ok', 'checks': per, 'failed': 0, 'wall_s': round(wall, 1)}
+                   'status': 'failed' if h['id'] in failed_ids else 'ok', 'checks': info.get('checks', per), 'failed': info.get('failed', 0),
+                   'wall_s': round(info.get('time', wall), 2)}
             res['harnesses'].append(ent)
         # every failed harness is re-run alone, with concrete playback, to tell a time-out from a counterexample
         for hid in sorted(failed_ids):
